@@ -212,7 +212,7 @@ def instantiate_name(original_name: str,
         # Ensure the first character of the type is capitalized
         name = inst.instantiated_name()
         # Using `capitalize` on the complete name causes other caps to be lower case
-        instantiated_names.append(name.replace(name[0], name[0].capitalize()))
+        instantiated_names.append(name[0].capitalize() + name[1:])
 
     return "{}{}".format(original_name, "".join(instantiated_names))
 
